@@ -289,6 +289,7 @@ type World struct {
 	creds        map[string]string
 	failRestore  bool           // the next Backend.Restore fails
 	onDisconnect map[int]func() // run when the broker has read a DISCONNECT from that connection, before it acts on it
+	lastHeard    map[int]time.Time
 	noModel      bool           // monitors only: the model is not asked (lines are written as comments)
 	longCase     bool           // a very long, regular script: monitor hits carry the head and the tail of the trace only
 	concurrent   bool           // stimuli were fired concurrently: order-sensitive monitors are switched off
@@ -310,7 +311,10 @@ func newWorld(o *out.W, prop string, window, queue int, creds map[string]string)
 	w.mustSurvive = map[int]bool{}
 	w.onDisconnect = map[int]func(){}
 	// a logger that can hold up a connection's goroutines (they all report through it)
-	w.be.Logger = func(ev broker.LogEvent, c *broker.Client, pkt packet.Generic, _ *packet.Message, _ error) {
+	w.be.Logger = func(ev broker.LogEvent, c *broker.Client, pkt packet.Generic, _ *packet.Message, lerr error) {
+		if lerr != nil && debugLog {
+			fmt.Fprintf(os.Stderr, "debug: conn %d %v: %v (trace line %d)\n", w.wb.connOf(c), ev, lerr, len(w.trace))
+		}
 		w.mu.Lock()
 		ch := w.stalled[w.wb.connOf(c)]
 		var hook func()
@@ -506,7 +510,17 @@ func (w *World) Send(c int, p packet.Generic) {
 	if !dead {
 		fc.in <- clonePacket(p) // what the broker gets is decoded from the wire: its own objects
 	}
+	w.heard(c)
 	w.settle()
+}
+
+// heard notes when the broker last received something from connection c: with keep alive 0 it applies its maximum keep
+// alive (5 min, closed after 7.5 min of silence), a legitimate closure that an idle script must not provoke
+func (w *World) heard(c int) {
+	if w.lastHeard == nil {
+		w.lastHeard = map[int]time.Time{}
+	}
+	w.lastHeard[c] = time.Now()
 }
 
 // SendBatch pipelines several packets without waiting for replies
@@ -525,6 +539,7 @@ func (w *World) SendBatch(c int, ps []packet.Generic) {
 			fc.in <- clonePacket(p)
 		}
 	}
+	w.heard(c)
 	w.settle()
 }
 
@@ -560,6 +575,8 @@ func (w *World) KeepAliveExpire(c int) {
 
 // Idle lets more (fake) time pass than the broker's token timeout with nothing to do: not a model stimulus — an idle
 // connection that acknowledges promptly must not be affected
+var debugLog = os.Getenv("VERIF_DEBUG") != ""
+
 func (w *World) Idle() {
 	// everybody acknowledges what it has received first: a full window that nobody frees for longer than the token
 	// timeout is (legitimately) a token timeout
@@ -573,6 +590,12 @@ func (w *World) Idle() {
 		}
 		if !any {
 			break
+		}
+	}
+	// … and nobody stays silent for longer than the maximum keep alive the broker applies to keep alive 0
+	for c := 1; c <= w.nconn; c++ {
+		if t, ok := w.lastHeard[c]; ok && w.alive(c) && w.peers[c].connected && time.Since(t) > 3*time.Minute {
+			w.Send(c, &packet.Pingreq{})
 		}
 	}
 	w.o.Count("stim/idle")
